@@ -63,6 +63,10 @@ def menu(state, V, durs, offs, maxdiff=0.5, n_others=3):
         for a, b in itertools.combinations(V, 2):
             for m in INS_MODES:
                 yield ("insert", a, b, m)
+        # an interval without duration, at every grid value (inside the span, at its end, beyond it): refused, wherever it lies
+        for a in V:
+            for m in INS_MODES:
+                yield ("insert", a, a, m)
     else:
         for a in V:
             for m in INS_MODES:
